@@ -246,9 +246,13 @@ func (r *Run) shrinkVector(v *Violation) *Violation {
 }
 
 func lowerAlternatives(c int) []int {
-	out := []int{0}
-	for a := 1; a < c && a < 8; a++ {
-		out = append(out, a)
+	seen := map[int]bool{}
+	var out []int
+	for _, a := range []int{0, 1, 2, 3, c / 8, c / 4, c / 2, c - 8, c - 4, c - 2, c - 1} {
+		if a >= 0 && a < c && !seen[a] {
+			seen[a] = true
+			out = append(out, a)
+		}
 	}
 	return out
 }
